@@ -1,4 +1,301 @@
-import LZ4V.Spec.Frame
-/-! # C10 — property theorems (in progress) -/
+import LZ4V.Gen.Funcs
+import LZ4V.Gen.Consts
+/-!
+# C10 — LZ4F bound functions guarantee success and are never exceeded
+
+All theorems are about the **regenerated** `LZ4F_compressBound_internal` / `LZ4F_compressBound` (translated from the C on
+every run).  `worstUpdate` is the most an update can write: `LZ4F_makeBlock` stores a block raw whenever compression does not
+shrink it, so a block of `n` input bytes costs at most `BHSize + n + BFSize·blockChecksumFlag`.
+-/
 namespace LZ4V.C10
+open LZ4V.Gen
+
+theorem emod_id (x m : Int) (h0 : 0 ≤ x) (h1 : x < m) : x % m = x := Int.emod_eq_of_lt h0 h1
+
+def mkPrefs (id c k af : Int) : LZ4F_preferences_t :=
+  { frameInfo := { blockSizeID := id, blockChecksumFlag := c, contentChecksumFlag := k }, autoFlush := af }
+
+/-- block size in bytes of a valid block-size id -/
+def bsOf (id : Int) : Int := if id = 5 then 262144 else if id = 6 then 1048576 else if id = 7 then 4194304 else 65536
+
+/-- the most `LZ4F_compressUpdate` can write for `s` new bytes with `b` bytes buffered (`b < blockSize`), no autoFlush:
+    every full block stored raw with its header and optional checksum; the rest stays buffered -/
+def worstUpdate (bs c s b : Int) : Int := ((s + b) / bs) * (4 + bs + 4 * c)
+
+/-- the most `LZ4F_flush` / `LZ4F_compressEnd` can write with `b` bytes buffered: the partial block raw, end mark, content checksum -/
+def worstEnd (c k b : Int) : Int := (if b > 0 then 4 + b + 4 * c else 0) + 4 + 4 * k
+
+/-- closed form of the regenerated `LZ4F_compressBound_internal`, block size id 4, no autoFlush, `s > 0` -/
+theorem internal_noflush_4 (s b c k : Int) (hs : 0 < s) (hs2 : s < 2^40) (hb : 0 ≤ b) (hb2 : b < 65536)
+    (hc : c = 0 ∨ c = 1) (hk : k = 0 ∨ k = 1) :
+    LZ4F_compressBound_internal s (some (mkPrefs 4 c k 0)) b = ((s + b) / 65536) * (4 + 4 * c + 65536) + 4 + 4 * k := by
+  have hne : s ≠ 0 := by omega
+  have e1 : (s + b) % 18446744073709551616 = s + b := emod_id _ _ (by omega) (by omega)
+  have e2 : (s + b) / 65536 % 4294967296 = (s + b) / 65536 := emod_id _ _ (by omega) (by omega)
+  rcases hc with rfl | rfl <;> rcases hk with rfl | rfl <;>
+  · unfold LZ4F_compressBound_internal LZ4F_getBlockSize LZ4F_returnErrorCode mkPrefs
+    simp [hne]
+    split
+    · rw [e1, e2]; omega
+    · have hbe : b = 65535 := by omega
+      subst hbe
+      rw [e1, e2]; omega
+
+/-- closed form for `srcSize = 0` (the bound used for `LZ4F_flush` and `LZ4F_compressEnd`), block size id 4 -/
+theorem internal_zero_4 (b c k : Int) (hb : 0 ≤ b) (hb2 : b < 65536) (hc : c = 0 ∨ c = 1) (hk : k = 0 ∨ k = 1) :
+    LZ4F_compressBound_internal 0 (some (mkPrefs 4 c k 0)) b = (if b > 0 then 4 + b + 4 * c else 0) + 4 + 4 * k := by
+  have e1 : b % 18446744073709551616 = b := emod_id _ _ (by omega) (by omega)
+  have e2 : b / 65536 = 0 := Int.ediv_eq_zero_of_lt hb hb2
+  have e3 : (b.toNat &&& 65535) = b.toNat := by
+    have := Nat.and_two_pow_sub_one_eq_mod b.toNat 16
+    simp at this
+    rw [this]
+    apply Nat.mod_eq_of_lt
+    omega
+  rcases hc with rfl | rfl <;> rcases hk with rfl | rfl <;>
+  · unfold LZ4F_compressBound_internal LZ4F_getBlockSize LZ4F_returnErrorCode mkPrefs
+    simp
+    split
+    · rw [e1, e2, e3]
+      by_cases hb0 : b > 0
+      · have : (b.toNat : Int) = b := Int.toNat_of_nonneg hb
+        simp [hb0, this]; omega
+      · have : b = 0 := by omega
+        subst this; simp
+    · rename_i hge
+      have hbe : b = 65535 := by omega
+      subst hbe
+      decide
+
+/-- closed form of the regenerated `LZ4F_compressBound_internal`, block size id 5, no autoFlush, `s > 0` -/
+theorem internal_noflush_5 (s b c k : Int) (hs : 0 < s) (hs2 : s < 2^40) (hb : 0 ≤ b) (hb2 : b < 262144)
+    (hc : c = 0 ∨ c = 1) (hk : k = 0 ∨ k = 1) :
+    LZ4F_compressBound_internal s (some (mkPrefs 5 c k 0)) b = ((s + b) / 262144) * (4 + 4 * c + 262144) + 4 + 4 * k := by
+  have hne : s ≠ 0 := by omega
+  have e1 : (s + b) % 18446744073709551616 = s + b := emod_id _ _ (by omega) (by omega)
+  have e2 : (s + b) / 262144 % 4294967296 = (s + b) / 262144 := emod_id _ _ (by omega) (by omega)
+  rcases hc with rfl | rfl <;> rcases hk with rfl | rfl <;>
+  · unfold LZ4F_compressBound_internal LZ4F_getBlockSize LZ4F_returnErrorCode mkPrefs
+    simp [hne]
+    split
+    · rw [e1, e2]; omega
+    · have hbe : b = 262143 := by omega
+      subst hbe
+      rw [e1, e2]; omega
+
+/-- closed form for `srcSize = 0` (the bound used for `LZ4F_flush` and `LZ4F_compressEnd`), block size id 5 -/
+theorem internal_zero_5 (b c k : Int) (hb : 0 ≤ b) (hb2 : b < 262144) (hc : c = 0 ∨ c = 1) (hk : k = 0 ∨ k = 1) :
+    LZ4F_compressBound_internal 0 (some (mkPrefs 5 c k 0)) b = (if b > 0 then 4 + b + 4 * c else 0) + 4 + 4 * k := by
+  have e1 : b % 18446744073709551616 = b := emod_id _ _ (by omega) (by omega)
+  have e2 : b / 262144 = 0 := Int.ediv_eq_zero_of_lt hb hb2
+  have e3 : (b.toNat &&& 262143) = b.toNat := by
+    have := Nat.and_two_pow_sub_one_eq_mod b.toNat 18
+    simp at this
+    rw [this]
+    apply Nat.mod_eq_of_lt
+    omega
+  rcases hc with rfl | rfl <;> rcases hk with rfl | rfl <;>
+  · unfold LZ4F_compressBound_internal LZ4F_getBlockSize LZ4F_returnErrorCode mkPrefs
+    simp
+    split
+    · rw [e1, e2, e3]
+      by_cases hb0 : b > 0
+      · have : (b.toNat : Int) = b := Int.toNat_of_nonneg hb
+        simp [hb0, this]; omega
+      · have : b = 0 := by omega
+        subst this; simp
+    · rename_i hge
+      have hbe : b = 262143 := by omega
+      subst hbe
+      decide
+
+/-- closed form of the regenerated `LZ4F_compressBound_internal`, block size id 6, no autoFlush, `s > 0` -/
+theorem internal_noflush_6 (s b c k : Int) (hs : 0 < s) (hs2 : s < 2^40) (hb : 0 ≤ b) (hb2 : b < 1048576)
+    (hc : c = 0 ∨ c = 1) (hk : k = 0 ∨ k = 1) :
+    LZ4F_compressBound_internal s (some (mkPrefs 6 c k 0)) b = ((s + b) / 1048576) * (4 + 4 * c + 1048576) + 4 + 4 * k := by
+  have hne : s ≠ 0 := by omega
+  have e1 : (s + b) % 18446744073709551616 = s + b := emod_id _ _ (by omega) (by omega)
+  have e2 : (s + b) / 1048576 % 4294967296 = (s + b) / 1048576 := emod_id _ _ (by omega) (by omega)
+  rcases hc with rfl | rfl <;> rcases hk with rfl | rfl <;>
+  · unfold LZ4F_compressBound_internal LZ4F_getBlockSize LZ4F_returnErrorCode mkPrefs
+    simp [hne]
+    split
+    · rw [e1, e2]; omega
+    · have hbe : b = 1048575 := by omega
+      subst hbe
+      rw [e1, e2]; omega
+
+/-- closed form for `srcSize = 0` (the bound used for `LZ4F_flush` and `LZ4F_compressEnd`), block size id 6 -/
+theorem internal_zero_6 (b c k : Int) (hb : 0 ≤ b) (hb2 : b < 1048576) (hc : c = 0 ∨ c = 1) (hk : k = 0 ∨ k = 1) :
+    LZ4F_compressBound_internal 0 (some (mkPrefs 6 c k 0)) b = (if b > 0 then 4 + b + 4 * c else 0) + 4 + 4 * k := by
+  have e1 : b % 18446744073709551616 = b := emod_id _ _ (by omega) (by omega)
+  have e2 : b / 1048576 = 0 := Int.ediv_eq_zero_of_lt hb hb2
+  have e3 : (b.toNat &&& 1048575) = b.toNat := by
+    have := Nat.and_two_pow_sub_one_eq_mod b.toNat 20
+    simp at this
+    rw [this]
+    apply Nat.mod_eq_of_lt
+    omega
+  rcases hc with rfl | rfl <;> rcases hk with rfl | rfl <;>
+  · unfold LZ4F_compressBound_internal LZ4F_getBlockSize LZ4F_returnErrorCode mkPrefs
+    simp
+    split
+    · rw [e1, e2, e3]
+      by_cases hb0 : b > 0
+      · have : (b.toNat : Int) = b := Int.toNat_of_nonneg hb
+        simp [hb0, this]; omega
+      · have : b = 0 := by omega
+        subst this; simp
+    · rename_i hge
+      have hbe : b = 1048575 := by omega
+      subst hbe
+      decide
+
+/-- closed form of the regenerated `LZ4F_compressBound_internal`, block size id 7, no autoFlush, `s > 0` -/
+theorem internal_noflush_7 (s b c k : Int) (hs : 0 < s) (hs2 : s < 2^40) (hb : 0 ≤ b) (hb2 : b < 4194304)
+    (hc : c = 0 ∨ c = 1) (hk : k = 0 ∨ k = 1) :
+    LZ4F_compressBound_internal s (some (mkPrefs 7 c k 0)) b = ((s + b) / 4194304) * (4 + 4 * c + 4194304) + 4 + 4 * k := by
+  have hne : s ≠ 0 := by omega
+  have e1 : (s + b) % 18446744073709551616 = s + b := emod_id _ _ (by omega) (by omega)
+  have e2 : (s + b) / 4194304 % 4294967296 = (s + b) / 4194304 := emod_id _ _ (by omega) (by omega)
+  rcases hc with rfl | rfl <;> rcases hk with rfl | rfl <;>
+  · unfold LZ4F_compressBound_internal LZ4F_getBlockSize LZ4F_returnErrorCode mkPrefs
+    simp [hne]
+    split
+    · rw [e1, e2]; omega
+    · have hbe : b = 4194303 := by omega
+      subst hbe
+      rw [e1, e2]; omega
+
+/-- closed form for `srcSize = 0` (the bound used for `LZ4F_flush` and `LZ4F_compressEnd`), block size id 7 -/
+theorem internal_zero_7 (b c k : Int) (hb : 0 ≤ b) (hb2 : b < 4194304) (hc : c = 0 ∨ c = 1) (hk : k = 0 ∨ k = 1) :
+    LZ4F_compressBound_internal 0 (some (mkPrefs 7 c k 0)) b = (if b > 0 then 4 + b + 4 * c else 0) + 4 + 4 * k := by
+  have e1 : b % 18446744073709551616 = b := emod_id _ _ (by omega) (by omega)
+  have e2 : b / 4194304 = 0 := Int.ediv_eq_zero_of_lt hb hb2
+  have e3 : (b.toNat &&& 4194303) = b.toNat := by
+    have := Nat.and_two_pow_sub_one_eq_mod b.toNat 22
+    simp at this
+    rw [this]
+    apply Nat.mod_eq_of_lt
+    omega
+  rcases hc with rfl | rfl <;> rcases hk with rfl | rfl <;>
+  · unfold LZ4F_compressBound_internal LZ4F_getBlockSize LZ4F_returnErrorCode mkPrefs
+    simp
+    split
+    · rw [e1, e2, e3]
+      by_cases hb0 : b > 0
+      · have : (b.toNat : Int) = b := Int.toNat_of_nonneg hb
+        simp [hb0, this]; omega
+      · have : b = 0 := by omega
+        subst this; simp
+    · rename_i hge
+      have hbe : b = 4194303 := by omega
+      subst hbe
+      decide
+
+/-- **an update never needs more than the internal bound**: whatever is buffered (`0 ≤ b < blockSize`), the worst case
+    (every full block incompressible, stored raw) is covered, for every valid block size and checksum setting -/
+theorem update_le_internal (id s b c k : Int) (hid : id = 4 ∨ id = 5 ∨ id = 6 ∨ id = 7)
+    (hs : 0 < s) (hs2 : s < 2^40) (hb : 0 ≤ b) (hb2 : b < bsOf id) (hc : c = 0 ∨ c = 1) (hk : k = 0 ∨ k = 1) :
+    worstUpdate (bsOf id) c s b ≤ LZ4F_compressBound_internal s (some (mkPrefs id c k 0)) b := by
+  unfold worstUpdate
+  rcases hid with rfl | rfl | rfl | rfl
+  · have hbs : bsOf 4 = 65536 := by decide
+    rw [hbs] at hb2 ⊢
+    rw [internal_noflush_4 s b c k hs hs2 hb hb2 hc hk]
+    rcases hc with rfl | rfl <;> rcases hk with rfl | rfl <;> omega
+  · have hbs : bsOf 5 = 262144 := by decide
+    rw [hbs] at hb2 ⊢
+    rw [internal_noflush_5 s b c k hs hs2 hb hb2 hc hk]
+    rcases hc with rfl | rfl <;> rcases hk with rfl | rfl <;> omega
+  · have hbs : bsOf 6 = 1048576 := by decide
+    rw [hbs] at hb2 ⊢
+    rw [internal_noflush_6 s b c k hs hs2 hb hb2 hc hk]
+    rcases hc with rfl | rfl <;> rcases hk with rfl | rfl <;> omega
+  · have hbs : bsOf 7 = 4194304 := by decide
+    rw [hbs] at hb2 ⊢
+    rw [internal_noflush_7 s b c k hs hs2 hb hb2 hc hk]
+    rcases hc with rfl | rfl <;> rcases hk with rfl | rfl <;> omega
+
+/-- **`LZ4F_compressBound(0, prefs)` covers flush and end**: the internal bound for `srcSize = 0` is exactly the worst case of
+    emitting the buffered partial block raw plus the end mark and content checksum -/
+theorem end_eq_internal_zero (id b c k : Int) (hid : id = 4 ∨ id = 5 ∨ id = 6 ∨ id = 7)
+    (hb : 0 ≤ b) (hb2 : b < bsOf id) (hc : c = 0 ∨ c = 1) (hk : k = 0 ∨ k = 1) :
+    worstEnd c k b = LZ4F_compressBound_internal 0 (some (mkPrefs id c k 0)) b := by
+  unfold worstEnd
+  rcases hid with rfl | rfl | rfl | rfl
+  · have hbs : bsOf 4 = 65536 := by decide
+    rw [hbs] at hb2
+    rw [internal_zero_4 b c k hb hb2 hc hk]
+  · have hbs : bsOf 5 = 262144 := by decide
+    rw [hbs] at hb2
+    rw [internal_zero_5 b c k hb hb2 hc hk]
+  · have hbs : bsOf 6 = 1048576 := by decide
+    rw [hbs] at hb2
+    rw [internal_zero_6 b c k hb hb2 hc hk]
+  · have hbs : bsOf 7 = 4194304 := by decide
+    rw [hbs] at hb2
+    rw [internal_zero_7 b c k hb hb2 hc hk]
+
+/-- `LZ4F_compressBound` (no autoFlush) assumes the largest possible buffered amount, block size id 4 -/
+theorem bound_eq_internal_max_4 (s c k : Int) :
+    LZ4F_compressBound s (some (mkPrefs 4 c k 0)) = LZ4F_compressBound_internal s (some (mkPrefs 4 c k 0)) 65535 := by
+  unfold LZ4F_compressBound LZ4F_compressBound_internal LZ4F_getBlockSize mkPrefs
+  simp
+
+/-- `LZ4F_compressBound` (no autoFlush) assumes the largest possible buffered amount, block size id 5 -/
+theorem bound_eq_internal_max_5 (s c k : Int) :
+    LZ4F_compressBound s (some (mkPrefs 5 c k 0)) = LZ4F_compressBound_internal s (some (mkPrefs 5 c k 0)) 262143 := by
+  unfold LZ4F_compressBound LZ4F_compressBound_internal LZ4F_getBlockSize mkPrefs
+  simp
+
+/-- `LZ4F_compressBound` (no autoFlush) assumes the largest possible buffered amount, block size id 6 -/
+theorem bound_eq_internal_max_6 (s c k : Int) :
+    LZ4F_compressBound s (some (mkPrefs 6 c k 0)) = LZ4F_compressBound_internal s (some (mkPrefs 6 c k 0)) 1048575 := by
+  unfold LZ4F_compressBound LZ4F_compressBound_internal LZ4F_getBlockSize mkPrefs
+  simp
+
+/-- `LZ4F_compressBound` (no autoFlush) assumes the largest possible buffered amount, block size id 7 -/
+theorem bound_eq_internal_max_7 (s c k : Int) :
+    LZ4F_compressBound s (some (mkPrefs 7 c k 0)) = LZ4F_compressBound_internal s (some (mkPrefs 7 c k 0)) 4194303 := by
+  unfold LZ4F_compressBound LZ4F_compressBound_internal LZ4F_getBlockSize mkPrefs
+  simp
+
+/-- **`LZ4F_compressBound(srcSize, prefs)` suffices whatever earlier updates left buffered**: the public bound dominates the
+    internal bound (hence the worst case of the update, `update_le_internal`) for every buffered amount `0 ≤ b < blockSize` -/
+theorem bound_covers_any_buffered (id s b c k : Int) (hid : id = 4 ∨ id = 5 ∨ id = 6 ∨ id = 7)
+    (hs : 0 < s) (hs2 : s < 2^40) (hb : 0 ≤ b) (hb2 : b < bsOf id) (hc : c = 0 ∨ c = 1) (hk : k = 0 ∨ k = 1) :
+    worstUpdate (bsOf id) c s b ≤ LZ4F_compressBound s (some (mkPrefs id c k 0)) := by
+  have h1 := update_le_internal id s b c k hid hs hs2 hb hb2 hc hk
+  refine Int.le_trans h1 ?_
+  rcases hid with rfl | rfl | rfl | rfl
+  · have hbs : bsOf 4 = 65536 := by decide
+    rw [hbs] at hb2
+    rw [bound_eq_internal_max_4, internal_noflush_4 s b c k hs hs2 hb hb2 hc hk,
+        internal_noflush_4 s 65535 c k hs hs2 (by omega) (by omega) hc hk]
+    have hmono : (s + b) / 65536 ≤ (s + 65535) / 65536 := Int.ediv_le_ediv (by omega) (by omega)
+    rcases hc with rfl | rfl <;> rcases hk with rfl | rfl <;> omega
+  · have hbs : bsOf 5 = 262144 := by decide
+    rw [hbs] at hb2
+    rw [bound_eq_internal_max_5, internal_noflush_5 s b c k hs hs2 hb hb2 hc hk,
+        internal_noflush_5 s 262143 c k hs hs2 (by omega) (by omega) hc hk]
+    have hmono : (s + b) / 262144 ≤ (s + 262143) / 262144 := Int.ediv_le_ediv (by omega) (by omega)
+    rcases hc with rfl | rfl <;> rcases hk with rfl | rfl <;> omega
+  · have hbs : bsOf 6 = 1048576 := by decide
+    rw [hbs] at hb2
+    rw [bound_eq_internal_max_6, internal_noflush_6 s b c k hs hs2 hb hb2 hc hk,
+        internal_noflush_6 s 1048575 c k hs hs2 (by omega) (by omega) hc hk]
+    have hmono : (s + b) / 1048576 ≤ (s + 1048575) / 1048576 := Int.ediv_le_ediv (by omega) (by omega)
+    rcases hc with rfl | rfl <;> rcases hk with rfl | rfl <;> omega
+  · have hbs : bsOf 7 = 4194304 := by decide
+    rw [hbs] at hb2
+    rw [bound_eq_internal_max_7, internal_noflush_7 s b c k hs hs2 hb hb2 hc hk,
+        internal_noflush_7 s 4194303 c k hs hs2 (by omega) (by omega) hc hk]
+    have hmono : (s + b) / 4194304 ≤ (s + 4194303) / 4194304 := Int.ediv_le_ediv (by omega) (by omega)
+    rcases hc with rfl | rfl <;> rcases hk with rfl | rfl <;> omega
+
+/-- non-vacuity and the F2 witness in numbers: 10 bytes buffered + one 64 KB block through the OTHER update function needs
+    `4+10` (flushed partial block) `+ 4 + 65536` bytes, i.e. 65554, more than `LZ4F_compressBound(65536) = 65544` -/
+example : LZ4F_compressBound 65536 (some (mkPrefs 4 0 0 0)) = 65544 ∧ (4 + 10) + (4 + 65536) > (65544 : Int) := by decide
+
 end LZ4V.C10
